@@ -271,6 +271,16 @@ func entityKeys(v ssa.Value) map[string]bool {
 				if b := core.FieldBase(rv); b != nil {
 					out["val:"+name(b)] = true // promoted method through an embedded field: e.Update.Priority()
 				}
+			} else if cc := c.Common(); !cc.IsInvoke() && cc.StaticCallee() == nil {
+				// an accessor handed in as a function value (valueOf(v) in a generic helper): the same function value
+				// applied to the same arguments stands for the same entity
+				if _, isB := cc.Value.(*ssa.Builtin); !isB {
+					k := "dyn:" + name(cc.Value) + "("
+					for _, a := range cc.Args {
+						k += name(a) + ","
+					}
+					out[k+")"] = true
+				}
 			}
 		}
 	}
